@@ -200,6 +200,7 @@ pub fn configs(tier: crate::registry::Tier, _seed: u64) -> Vec<crate::registry::
         (RingSel::Z, 1, 1, 1, 4, 200, 30.0), (RingSel::Z, 1, 2, 1, 3, 600, 120.0), (RingSel::Z, 2, 2, 1, 2, 600, 150.0), (RingSel::Z, 1, 2, 2, 2, 600, 150.0),
         (RingSel::Z, 2, 1, 1, 3, 200, 40.0), (RingSel::Z, 0, 2, 1, 3, 200, 40.0), (RingSel::Z, 2, 2, 0, 2, 400, 90.0), (RingSel::Z, 0, 0, 0, 1, 2, 5.0), (RingSel::Z, 1, 0, 1, 1, 2, 5.0),
         (RingSel::Z, 2, 3, 1, 1, 600, 150.0), (RingSel::Gauss, 1, 1, 1, 1, 300, 60.0), (RingSel::Gauss, 1, 2, 1, 1, 400, 150.0), (RingSel::Eisen, 1, 1, 1, 1, 300, 60.0),
+        (RingSel::Q, 1, 2, 1, 2, 600, 120.0), (RingSel::Q, 2, 2, 1, 1, 600, 120.0), (RingSel::Q, 1, 1, 1, 3, 200, 30.0),
     ] {
         v.push(entry(Homology { ring, m, n, k, b }, cls, secs));
     }
